@@ -50,7 +50,7 @@ type finalEvent struct {
 	AuditUpTo  int        `json:"aupto"`
 }
 
-const fillerPrefix = "zz-filler/"
+const fillerPrefix = "b-filler/" // sorts between the two shared names: a listing walks over the fillers between them
 
 // evlog is the single totally ordered event log of one history.
 type evlog struct {
@@ -89,6 +89,7 @@ func TestConcurrentHistories(t *testing.T) {
 	condMix := os.Getenv("VERIF_OPMIX") == "cond"
 	aclMix := os.Getenv("VERIF_OPMIX") == "acl"
 	sameMix := os.Getenv("VERIF_OPMIX") == "same" // many identical read requests by different callers at the same time
+	listMix := os.Getenv("VERIF_OPMIX") == "list" // one client changes the two shared names in turn, the others list: a listing is one state
 	realFile := os.Getenv("VERIF_AUDITFILE") != "" // audit.NewFile on a real file; records read back afterwards
 	d := NewDict(0)
 	d.sigma = map[rune]rune{}
@@ -138,6 +139,9 @@ func TestConcurrentHistories(t *testing.T) {
 		su := sys.caller("setup", suRules)
 		sys.Sink.Muted = true
 		nfill := []int{0, 0, 20, 60}[r.Intn(4)]
+		if listMix {
+			nfill = []int{20, 60, 150}[r.Intn(3)]
+		}
 		for i := 0; i < nfill && !realFile; i++ {
 			sys.DB.Put(su, fmt.Sprintf("%s%03d", fillerPrefix, i), []byte("filler"))
 		}
@@ -148,6 +152,9 @@ func TestConcurrentHistories(t *testing.T) {
 		}
 		nc := 2 + r.Intn(3)
 		ncalls := 2 + r.Intn(4)
+		if listMix {
+			nc, ncalls = 2+r.Intn(2), 4+r.Intn(3)
+		}
 		type plan struct {
 			cl    string
 			calls []Call
@@ -184,6 +191,14 @@ func TestConcurrentHistories(t *testing.T) {
 				if sameMix { // reads of one name with very few distinct arguments, now and then something that changes it
 					x = []int{40, 40, 40, 40, 46, 46, 46, 52, 52, 60, 10, 80}[r.Intn(12)]
 					c.Name = shared[0]
+				}
+				if listMix {
+					if ci == 0 { // the writer: the two names in turn, each call complete before the next begins
+						x = []int{10, 10, 10, 80, 88, 97}[r.Intn(6)]
+						c.Name = shared[k%2]
+					} else {
+						x = []int{70, 70, 70, 60}[r.Intn(4)]
+					}
 				}
 				if condMix { // C09: conditional gets racing activations, puts and deletions
 					x = []int{50, 50, 50, 50, 80, 80, 80, 10, 10, 88, 97, 40}[r.Intn(12)]
